@@ -40,8 +40,9 @@ def main():
 
 
 def launch(doc, hashseed, verif_dir, cwd="/", lc_all="C", timeout=900):
-    """Start a fresh interpreter and return (popen, None); collect with `collect`."""
+    """Start a fresh interpreter; collect its answer with `collect` (which retries once on failure)."""
     import subprocess
+    args = (doc, hashseed, verif_dir, cwd, lc_all)
     env = dict(os.environ)
     env["PYTHONHASHSEED"] = str(hashseed)
     env["LC_ALL"] = lc_all
@@ -52,14 +53,22 @@ def launch(doc, hashseed, verif_dir, cwd="/", lc_all="C", timeout=900):
                          stdin=subprocess.PIPE, stdout=subprocess.PIPE, stderr=subprocess.PIPE, cwd=cwd, env=env)
     p.stdin.write(json.dumps(doc).encode())
     p.stdin.close()
+    p._htsim_args = args
     return p
 
 
-def collect(p, timeout=900):
+def collect(p, timeout=900, _retry=True):
     try:
-        out = p.stdout.read()
-        err = p.stderr.read()
-        p.wait(timeout=timeout)
+        return _collect(p, timeout)
+    except RuntimeError:
+        if not _retry or not hasattr(p, "_htsim_args"):
+            raise
+        return collect(launch(*p._htsim_args), timeout, _retry=False)
+
+
+def _collect(p, timeout=900):
+    try:
+        out, err = p.communicate(timeout=timeout)
     except Exception as e:  # noqa
         p.kill()
         raise RuntimeError(f"fresh interpreter failed: {e}")
